@@ -130,6 +130,18 @@ def step (t : List String) : String :=
         let w ← pf? w
         let ps ← floats ps
         pure (String.join ((pairs ps).map fun (x, y) => bit (decide (vane absF w x y))))
+    | "keyseg" :: pi :: rin :: rout :: lo :: hi :: _k :: ps => do
+        let pi ← pf? pi
+        let rin ← pf? rin
+        let rout ← pf? rout
+        let lo ← pf? lo
+        let hi ← pf? hi
+        let ps ← floats ps
+        pure (String.join ((pairs ps).map fun (r, t) => bit (decide (keySegment pi rin rout lo hi r t))))
+    | "claim" :: bs => do
+        let ms := bs.map (· == "1")
+        let r := claims claimStep false ms
+        pure (String.join (r.1.map bit) ++ " " ++ bit r.2)
     | _ => none
   r.getD "bad-op"
 
